@@ -522,4 +522,8 @@ def replay_main(mod, pid, path, bare):
 
 
 if __name__ == "__main__":
-    sys.exit(main())
+    # run through the importable module object so that classes (Skip, Ctx) have one identity
+    sys.path.insert(0, VERIF)
+    from vf import runner as _r
+
+    sys.exit(_r.main())
